@@ -237,6 +237,19 @@ func (e *Environment) Unwind(depth int) {
 	}
 }
 
+// Declare makes a new variable in the innermost scope.
+//
+// This is how the parameters of a function, the variables of a loop and
+// the `local` variables come into being: unlike SetLocal it never looks
+// for a variable of the same name further out, which belongs to somebody
+// else (to the caller, say, when a function calls itself).
+func (e *Environment) Declare(name string, val object.Object) object.Object {
+	if len(e.local) > 0 {
+		e.local[len(e.local)-1][name] = val
+	}
+	return val
+}
+
 // SetLocal stores the value of a variable, by name, but only for the local scope.
 func (e *Environment) SetLocal(name string, val object.Object) object.Object {
 
